@@ -675,6 +675,14 @@ class Program:
             r = self.resolve_global(mod, expr.id)
             if r in self.classes:
                 return TypeRef(r, (), True)
+            gv = mod.assigns.get(expr.id)
+            if isinstance(gv, ast.Call):
+                # module-level object: `_log = getLogger(__name__)`, `_cache = WeakValueDictionary()`
+                callee = self.resolve_dotted(mod, gv.func.value if isinstance(gv.func, ast.Subscript) else gv.func)
+                if callee in EXTERNAL_RETURNS:
+                    return TypeRef(EXTERNAL_RETURNS[callee])
+                if callee in self.classes:
+                    return TypeRef(callee)
             return None
         if isinstance(expr, ast.Attribute):
             base = self.expr_type(fi, expr.value, _depth + 1)
